@@ -181,7 +181,8 @@ let run_file file tablefile =
                 if Nucleo.published !s sn.Nucleo.sn_sid (n k) then
                   (match Hashtbl.find_opt items (i sn.Nucleo.sn_sid, k) with Some g -> string_of_int g | None -> "UNINIT")
                 else "-") in
-            push (Printf.sprintf "O p=%d c=%d m=%s d=%s inj=%d n=%d u=0 g=%s" (i sn.Nucleo.sn_pat) (i sn.Nucleo.sn_count)
+            (* k: the number of matcher columns of the items handed out - every stream has the configured number (2) *)
+            push (Printf.sprintf "O p=%d c=%d m=%s d=%s inj=%d n=%d u=0 g=%s k=2" (i sn.Nucleo.sn_pat) (i sn.Nucleo.sn_count)
                     (if ms = [] then "-" else String.concat "," ms) (if ds = [] then "-" else String.concat "," ds)
                     (i (Nucleo.active_injectors !s)) (i !s.Nucleo.notifies + !inj_notifies) (String.concat "," gi))
           end
@@ -192,7 +193,7 @@ let run_file file tablefile =
 (* ---- model-guided history generation: `driver nucleo-gen SEED COUNT` ------------------------------ *)
 (* random walks over the ENABLED events of the model (so that the real threads never block where the
    scheduler cannot see them); the pattern pool / text pool are those of harness/hn/src/nucleo_cmd.rs *)
-let nstyles = 15
+let nstyles = 16
 let gen ?tablefile seed count =
   Random.init seed;
   (* with the score table of the harness (pattern pool x text pool) the generator's model state is exactly the one
@@ -270,7 +271,7 @@ let gen ?tablefile seed count =
         let th = { tid = !next_t; sid = i sid; g = !next_g; n = cnt; step = stp; chunk; is_ext = true; stage = ref 0; idx = ref 0; pub = ref 0 } in
         threads := th :: !threads;
         emit (Printf.sprintf "ext %d %d %d %d %d %d" !next_t (i h) !next_g cnt stp chunk);
-        incr next_t; next_g := !next_g + 1 + Random.int 5; Some th in
+        incr next_t; next_g := !next_g + (cnt - 1) * stp + 1 + Random.int 5; Some th in
     let small_ext () = let cnt = 2 + Random.int 6 in do_ext cnt (1 + Random.int 4) (if Random.bool () then cnt else 1 + Random.int 3) in
     let do_push () =
       match !s.Nucleo.injectors with
@@ -436,7 +437,7 @@ let gen ?tablefile seed count =
          let th = { tid = !next_t; sid = i sid; g = !next_g; n = cnt; step = 1 + Random.int 5; chunk = cnt; is_ext = true; stage = ref 0; idx = ref 0; pub = ref 0 } in
          threads := th :: !threads;
          emit (Printf.sprintf "ext %d %d %d %d %d %d" th.tid (i h) th.g cnt th.step th.chunk);
-         incr next_t; next_g := !next_g + 1 + Random.int 5;
+         incr next_t; next_g := !next_g + (cnt - 1) * th.step + 1 + Random.int 5;
          finish_thread th) in
     (* style 9: cancelled run, then the empty pattern - the history ends with: a zero-timeout tick leaves a run over a
        non-empty pattern parked before its sort, the pattern is edited to the EMPTY one, the next tick cancels the run in
@@ -633,6 +634,113 @@ let gen ?tablefile seed count =
                let f = ref 20 in
                while !f > 0 && !ui_blocked do decr f; ignore (do_run ()) done
              | _ -> ())
+          end
+        end
+      end
+    end;
+    (* style 15: run cancelled between its scan and its sort, then an append edit - the history ends with: a run that has
+       scored items which do NOT match the current pattern P (the match list holds placeholders, `unmatched` > 0) is parked
+       at run.before_sort by a zero-timeout tick; an extension P' of P is typed with append = true; the next tick sets the
+       cancel flag, the sort reports `cancelled`: the list is neither sorted nor truncated (placeholders stay, real entries
+       behind them), and the Update run that follows re-scores that list IN PLACE - it has to count the old placeholders
+       again and must find every real entry still there.  The items are chosen with the score table: some that do not
+       match P first, then some that match P'.  Variants: the scoring scan over new items (status Unchanged after the
+       worker settled on P, or the first run over a restarted stream) / the in-place re-scoring of an append edit P0 -> P *)
+    if style = 15 then begin
+      settle ();
+      List.iter finish_thread (List.filter unfinished !threads);
+      if idle () && not (held_run ()) then begin
+        let matches_ p t = p = 0 || (match Hashtbl.find_opt table (p, t) with Some (Some _) -> true | _ -> false) in
+        let texts f = List.filter f (List.init ntexts (fun t -> t)) in
+        let positive q = let (q0, q1) = patterns.(q) in not (String.contains q0 '!' || String.contains q1 '!') in
+        let shuffle l = List.map snd (List.sort compare (List.map (fun x -> (Random.bits (), x)) l)) in
+        (* one item with pool text t through a handle of the current stream; published unless `park` *)
+        let push_text ?(park = false) t =
+          if not (List.exists (fun (_, sid) -> i sid = i !s.Nucleo.cur) !s.Nucleo.injectors) then ignore (do_inj ());
+          match List.filter (fun (_, sid) -> i sid = i !s.Nucleo.cur) !s.Nucleo.injectors with
+          | [] -> ()
+          | l ->
+            let (h, sid) = pick l in
+            let g = t + ntexts * Random.int 3 in
+            let th = { tid = !next_t; sid = i sid; g; n = 1; step = 1; chunk = 1; is_ext = false; stage = ref 0; idx = ref 0; pub = ref 0 } in
+            threads := th :: !threads;
+            emit (Printf.sprintf "push %d %d %d" th.tid (i h) g);
+            incr next_t;
+            if park then step_thread th else finish_thread th in
+        let some k l = List.init k (fun _ -> pick l) in
+        let at_sort () = (match !s.Nucleo.post, !s.Nucleo.lock with Nucleo.PNone, Nucleo.HeldRun (Nucleo.RSort _, _, _) -> true | _ -> false) in
+        (* the append edit and the tick that cancels the parked run; sometimes the tick is stepped into the blocking lock *)
+        let cancel_by_append p' =
+          if Random.int 4 = 0 then ignore (do_obs ());
+          edit_to p' true;
+          tick_begin (Random.int 3 = 0);
+          ignore (do_ut ());
+          (match !s.Nucleo.tpc with
+           | Nucleo.TBeforeLock _ when not (Nucleo.enabled_tick !s) && Random.bool () ->
+             emit "utb"; ui_blocked := true;
+             let f = ref 20 in
+             while !f > 0 && !ui_blocked do decr f; ignore (do_run ()) done
+           | _ -> ()) in
+        let bases = List.filter (fun q -> q <> 0 && positive q && exts_of q <> []) all_pats in
+        if Random.int 3 > 0 then begin
+          (* the scoring scan: P = p0, P' = p1 *)
+          let pairs = List.concat_map (fun p0 -> List.filter_map (fun p1 ->
+              if texts (fun t -> not (matches_ p0 t)) <> [] && texts (matches_ p1) <> [] then Some (p0, p1) else None) (exts_of p0)) bases in
+          if pairs <> [] then begin
+            let (p0, p1) = pick pairs in
+            let nm0 = texts (fun t -> not (matches_ p0 t)) and m1 = texts (matches_ p1) in
+            let fresh = Random.int 4 = 0 in
+            if fresh then begin
+              (* the first run over a restarted stream: cleared worker, the scoring scan whatever the status *)
+              ignore (do_restart ());
+              if p0 <> !cur_pat then edit_to p0 (extends_ !cur_pat p0 && Random.bool ())
+            end else begin
+              if p0 <> !cur_pat then edit_to p0 (extends_ !cur_pat p0 && Random.bool ());
+              if Random.bool () then feed ();
+              tick_begin false; settle ();
+              if Random.bool () then begin tick_begin false; settle () end;
+              if Random.int 3 = 0 then ignore (do_obs ())
+            end;
+            if idle () && not (held_run ()) then begin
+              if Random.int 4 = 0 then List.iter push_text (some 1 m1);
+              List.iter push_text (some (1 + Random.int 3) nm0);
+              if Random.int 5 = 0 then push_text ~park:true (pick m1);
+              List.iter push_text (some (1 + Random.int 3) m1);
+              if Random.int 4 = 0 then List.iter push_text (some 1 nm0);
+              tick_begin true;
+              finish_tick ();
+              if idle () && run_at_start () then begin
+                ignore (do_run ());
+                if at_sort () then cancel_by_append p1
+              end
+            end
+          end
+        end else begin
+          (* the in-place re-scoring: the worker settles on p0, append edit p0 -> P = p1 (Update run parked before its
+             sort with placeholders for the items that match p0 but not p1), P' = p2 *)
+          let chains = List.concat_map (fun p1 -> List.concat_map (fun p0 ->
+              if p0 <> p1 && positive p0 && extends_ p0 p1 && texts (fun t -> matches_ p0 t && not (matches_ p1 t)) <> [] then
+                List.filter_map (fun p2 -> if texts (matches_ p2) <> [] then Some (p0, p1, p2) else None) (exts_of p1)
+              else []) all_pats) bases in
+          if chains <> [] then begin
+            let (p0, p1, p2) = pick chains in
+            let mid = texts (fun t -> matches_ p0 t && not (matches_ p1 t)) and m2 = texts (matches_ p2) in
+            if p0 <> !cur_pat then edit_to p0 (extends_ !cur_pat p0 && Random.bool ());
+            if Random.int 3 = 0 then feed ();
+            let a = some (1 + Random.int 3) mid and b = some (1 + Random.int 3) m2 in
+            List.iter push_text (if Random.int 3 = 0 then shuffle (a @ b) else a @ b);
+            tick_begin false; settle ();
+            if Random.bool () then begin tick_begin false; settle () end;
+            if Random.int 3 = 0 then ignore (do_obs ());
+            if idle () && not (held_run ()) then begin
+              edit_to p1 true;
+              tick_begin true;
+              finish_tick ();
+              if idle () && run_at_start () then begin
+                ignore (do_run ());
+                if at_sort () then cancel_by_append p2
+              end
+            end
           end
         end
       end
